@@ -3,8 +3,8 @@ import ElvisVerif.Lemmas.ListHeap
 /-!
 # `segment_arrives` commutes with the shift map (C12)
 
-Tracking facts about `process_segment` (reorder heap untouched, never back into SYN-SENT, `Late`
-stays `Late`), the processing loop by induction on its fuel, then `segment_arrives`.
+Tracking facts about `process_segment` (reorder heap untouched, never back into SYN-SENT), the
+processing loop by induction on its fuel, then `segment_arrives`.
 -/
 namespace Elvis.Tcp
 open Elvis.ModCmp
@@ -12,18 +12,17 @@ variable (ka kb : Seq)
 
 /-! ## what `process_segment` leaves alone -/
 
-/-- `u` has the reorder heap of `s`, is in SYN-SENT only if `s` was, and is `Late` if `s` was -/
+/-- `u` has the reorder heap of `s` and is in SYN-SENT only if `s` was -/
 structure Trk (s u : Tcb) : Prop where
   heap : u.incoming.segments = s.incoming.segments
   synsent : u.state = .SynSent → s.state = .SynSent
-  late : Late s → Late u
 
-theorem Trk.refl (s : Tcb) : Trk s s := ⟨rfl, id, id⟩
+theorem Trk.refl (s : Tcb) : Trk s s := ⟨rfl, id⟩
 theorem Trk.trans {a b c : Tcb} (h1 : Trk a b) (h2 : Trk b c) : Trk a c :=
-  ⟨h2.heap.trans h1.heap, fun h => h1.synsent (h2.synsent h), fun h => h2.late (h1.late h)⟩
+  ⟨h2.heap.trans h1.heap, fun h => h1.synsent (h2.synsent h)⟩
 
 theorem Trk.of_state {s u : Tcb} (hh : u.incoming.segments = s.incoming.segments) (hs : u.state = s.state) :
-    Trk s u := ⟨hh, fun h => by rw [← hs]; exact h, fun h => by unfold Late at *; rw [hs]; exact h⟩
+    Trk s u := ⟨hh, fun h => by rw [← hs]; exact h⟩
 
 theorem trk_enqueueBuilt (s : Tcb) (h : Hdr) : Trk s (s.enqueueBuilt h) :=
   Trk.of_state (by rw [(Tcb.enqueueBuilt_frame s h).2.2.2.1]) (Tcb.enqueueBuilt_frame s h).2.2.2.2.1
@@ -94,16 +93,16 @@ theorem ackBlock_heap (s u : Tcb) (seg : Hdr) (r : Option ProcessSegmentResult)
       repeat' (split at hk)
       all_goals (cases hk; exact hv)
     case LastAck =>
-      dsimp only at h
-      split at h <;> (cases h; rfl)
+      obtain ⟨v, r0, _, hv, hk⟩ := afterAck_inv' _ _ _ _ _ h
+      repeat' (split at hk)
+      all_goals (cases hk; exact hv)
     case TimeWait =>
-      rw [Tcb.enqueueThen_eq] at h
       cases h
-      rw [(Tcb.enqueueBuilt_frame _ _).2.2.2.1]
+      rfl
 
 theorem trk_ackBlock (s u : Tcb) (seg : Hdr) (r : Option ProcessSegmentResult)
     (h : Tcb.ackBlock s seg = .ok (u, r)) : Trk s u := by
-  refine ⟨ackBlock_heap s u seg r h, ?_, ackBlock_late s u seg r h⟩
+  refine ⟨ackBlock_heap s u seg r h, ?_⟩
   intro hu
   rcases ackBlock_state s u seg r h with e | ⟨_, e2⟩ | ⟨_, e2⟩ | ⟨_, e2⟩
   · rw [← e]; exact hu
@@ -123,7 +122,7 @@ theorem trk_synBlock (s u : Tcb) (seg : Hdr) (r : Option ProcessSegmentResult)
   · split at h <;> (cases h; exact Trk.refl _)
   · split at h
     · rename_i hs
-      refine ⟨?_, fun _ => hs, fun hl => absurd hs hl.1⟩
+      refine ⟨?_, fun _ => hs⟩
       split at h <;> (cases h; rw [(Tcb.enqueueBuilt_frame _ _).2.2.2.1])
     · cases h; exact trk_enqueueBuilt _ _
 
@@ -156,8 +155,8 @@ theorem trk_finState (s u : Tcb) (r : Option ProcessSegmentResult) (h : finState
   cases st <;> dsimp only at h
   all_goals first
     | (cases h; exact Trk.refl _)
-    | (cases h; exact ⟨rfl, (fun hh => by cases hh), (fun _ => And.intro (by intro hh; cases hh) (by intro hh; cases hh))⟩)
-    | (split at h <;> (cases h; exact ⟨rfl, (fun hh => by cases hh), (fun _ => And.intro (by intro hh; cases hh) (by intro hh; cases hh))⟩))
+    | (cases h; exact ⟨rfl, (fun hh => by cases hh)⟩)
+    | (split at h <;> (cases h; exact ⟨rfl, (fun hh => by cases hh)⟩))
 
 theorem trk_finBlock (s u : Tcb) (seg : Hdr) (tl : Seq) (r : Option ProcessSegmentResult)
     (h : Tcb.finBlock s seg tl = .ok (u, r)) : Trk s u := by
@@ -206,9 +205,8 @@ theorem trk_processSegment (s u : Tcb) (seg : Segment) (r : ProcessSegmentResult
 theorem shouldDelete_psNorm (r : ProcessSegmentResult) : (psNorm r).shouldDeleteTcb = r.shouldDeleteTcb := by
   cases r <;> rfl
 
-/-- outside SYN-SENT, and no FIN waits in the reorder heap while `SND.WL2` is unset -/
-def DrainPre (s : Tcb) : Prop :=
-  s.state ≠ .SynSent ∧ (¬ Late s → ∀ q ∈ s.incoming.segments, q.hdr.ctl.fin = false)
+/-- the loop is entered outside SYN-SENT (in SYN-SENT `segment_arrives` runs exactly one round) -/
+def DrainPre (s : Tcb) : Prop := s.state ≠ .SynSent
 
 def setHeap (s : Tcb) (h : List Segment) : Tcb := { s with incoming.segments := h }
 
@@ -230,7 +228,6 @@ theorem drain_succ (fuel : Nat) (s : Tcb) :
 
 /-- one `process_segment` inside the loop, on both sides -/
 theorem shift_loopBody (fuel : Nat) (t : Tcb) (seg : Segment) (hF : SynSentFresh t)
-    (hfin : seg.hdr.ctl.fin = true → Late t)
     (ih : ∀ u r, Tcb.processSegment t seg = .ok (u, r) → r.shouldDeleteTcb = false →
       Tcb.drain fuel (u.shift ka kb) = M.shift ka kb (Tcb.drain fuel u)) :
     (match Tcb.processSegment (t.shift ka kb) (seg.shift kb ka) with
@@ -239,7 +236,7 @@ theorem shift_loopBody (fuel : Nat) (t : Tcb) (seg : Segment) (hF : SynSentFresh
     M.shift ka kb (match Tcb.processSegment t seg with
       | .error e => .error e
       | .ok (s, r) => if r.shouldDeleteTcb then .ok (s, .Close) else Tcb.drain fuel s) := by
-  have key := shift_processSegment ka kb t seg hF hfin
+  have key := shift_processSegment ka kb t seg hF
   cases hp : Tcb.processSegment t seg with
   | error e =>
     rw [hp] at key
@@ -274,7 +271,7 @@ theorem shift_drain (fuel : Nat) (s : Tcb) (h : DrainPre s) :
   | zero => rfl
   | succ n ih =>
     rw [drain_succ, drain_succ, Tcb.shift_heap, peek_shift, pop_shift, Tcb.shift_state,
-      Tcb.shift_rcvnxt ka kb s h.1]
+      Tcb.shift_rcvnxt ka kb s h]
     cases hpk : LHeap.peek s.incoming.segments with
     | none => rfl
     | some top =>
@@ -289,29 +286,19 @@ theorem shift_drain (fuel : Nat) (s : Tcb) (h : DrainPre s) :
           | some seg =>
             simp only [Option.map_some]
             rw [shift_setHeap]
-            obtain ⟨hmem, hrest⟩ := LHeap.mem_of_mem_pop hpop
-            refine shift_loopBody ka kb n (setHeap s rest) seg (fun hs => absurd hs h.1) ?_ ?_
-            · intro hf
-              refine Classical.byContradiction fun hl => ?_
-              have := h.2 hl seg hmem
-              rw [hf] at this; cases this
-            · intro u r hp _
-              have trk := trk_processSegment _ u seg r hp
-              refine ih u ⟨fun hu => h.1 (trk.synsent hu), fun hl q hq => ?_⟩
-              have hl' : ¬ Late s := fun hls => hl (trk.late hls)
-              rw [trk.heap] at hq
-              exact h.2 hl' q (hrest q hq)
+            refine shift_loopBody ka kb n (setHeap s rest) seg (fun hs => absurd hs h) ?_
+            intro u r hp _
+            have trk := trk_processSegment _ u seg r hp
+            exact ih u (fun hu => h (trk.synsent hu))
 
 /-! ## `segment_arrives` -/
 
-/-- what the arriving segment must meet:
-    a SYN-SENT TCB is fresh and has nothing parked (both invariants of TCBs made by `open`);
-    while `SND.WL2` is unset (SYN-SENT, SYN-RECEIVED) neither the segment nor a parked one
-    carries FIN — the exclusion of F-C12-2 -/
-structure ArrPre (s : Tcb) (seg : Segment) : Prop where
+/-- what the TCB an arriving segment meets must satisfy: while in SYN-SENT it is fresh and has
+    nothing parked (both invariants of TCBs made by `open`).  Nothing is asked of the segment
+    (the F-C12-2 exclusion "no FIN while `SND.WL2` is unset" is gone with the repair). -/
+structure ArrPre (s : Tcb) : Prop where
   fresh : SynSentFresh s
   idle : s.state = .SynSent → s.incoming.segments = []
-  nofin : ¬ Late s → seg.hdr.ctl.fin = false ∧ ∀ q ∈ s.incoming.segments, q.hdr.ctl.fin = false
 
 theorem segmentArrives_eq (s : Tcb) (segment : Segment) :
     s.segmentArrives segment =
@@ -327,7 +314,7 @@ theorem segmentArrives_eq (s : Tcb) (segment : Segment) :
         Tcb.drain ((LHeap.push segLe s.incoming.segments segment).length + 1)
           (setHeap s (LHeap.push segLe s.incoming.segments segment)) := rfl
 
-theorem shift_segmentArrives (s : Tcb) (seg : Segment) (h : ArrPre s seg) :
+theorem shift_segmentArrives (s : Tcb) (seg : Segment) (h : ArrPre s) :
     (s.shift ka kb).segmentArrives (seg.shift kb ka) = M.shift ka kb (s.segmentArrives seg) := by
   rw [segmentArrives_eq, segmentArrives_eq, Tcb.shift_state, Tcb.shift_heap, push_shift, List.length_map,
     shift_setHeap]
@@ -356,16 +343,12 @@ theorem shift_segmentArrives (s : Tcb) (seg : Segment) (h : ArrPre s seg) :
     simp only [Bool.false_eq_true, if_false]
     have e : setHeap ((setHeap s [seg]).shift ka kb) [] = (setHeap (setHeap s [seg]) []).shift ka kb := rfl
     rw [e]
-    refine shift_loopBody ka kb 1 (setHeap (setHeap s [seg]) []) seg h.fresh ?_ ?_
-    · intro hf
-      refine Classical.byContradiction fun hl => ?_
-      have := (h.nofin hl).1
-      rw [hf] at this; cases this
-    · intro u r hp _
-      have trk := trk_processSegment _ u seg r hp
-      have hu : u.incoming.segments = [] := trk.heap
-      rw [drain_succ, drain_succ, Tcb.shift_heap, hu]
-      rfl
+    refine shift_loopBody ka kb 1 (setHeap (setHeap s [seg]) []) seg h.fresh ?_
+    intro u r hp _
+    have trk := trk_processSegment _ u seg r hp
+    have hu : u.incoming.segments = [] := trk.heap
+    rw [drain_succ, drain_succ, Tcb.shift_heap, hu]
+    rfl
   · rw [if_neg hs, if_neg hs]
     rw [Segment.shift_hdr, Segment.shift_text, Hdr.shift_seq, Hdr.shift_ctl, Tcb.shift_isSeqOk ka kb s hs]
     cases hok : s.isSeqOk (BitVec.ofNat 32 seg.text.length) seg.hdr.seq seg.hdr.ctl.syn seg.hdr.ctl.fin with
@@ -378,10 +361,6 @@ theorem shift_segmentArrives (s : Tcb) (seg : Segment) (h : ArrPre s seg) :
         cases s.enqueue s.ackHdr <;> rfl
       | true =>
         dsimp only
-        refine shift_drain ka kb _ _ ⟨hs, fun hl q hq => ?_⟩
-        have hl' : ¬ Late s := hl
-        rcases LHeap.mem_push.1 hq with e | e
-        · rw [e]; exact (h.nofin hl').1
-        · exact (h.nofin hl').2 q e
+        exact shift_drain ka kb _ _ hs
 
 end Elvis.Tcp
